@@ -230,7 +230,7 @@ func (k Keeper) monitorApprovalEvent(res *evmtypes.MsgEthereumTxResponse) error 
 	logApprovalSigHash := crypto.Keccak256Hash(logApprovalSig)
 
 	for _, log := range res.Logs {
-		if log.Topics[0] == logApprovalSigHash.Hex() {
+		if len(log.Topics) > 0 && log.Topics[0] == logApprovalSigHash.Hex() {
 			return errorsmod.Wrapf(
 				types.ErrUnexpectedEvent, "unexpected Approval event",
 			)
